@@ -25,7 +25,7 @@ NPER = 400
 
 
 def cases(tier, seed):
-    n = 40 if tier == "quick" else 2560
+    n = 40 if tier == "quick" else 7680
     return [{"seed": seed, "idx": i} for i in range(n)]
 
 
